@@ -340,4 +340,15 @@ theorem pow_8n (n : Nat) : (2 : Nat) ^ (8 * n) = 256 ^ n := by
   rw [Nat.pow_mul]
 
 
+/-! ## A concrete block for the non-vacuity examples of `Props/C01.lean` -/
+/-- a 1x2x1 int8 IFM at scratch offset 0, 1x1 kernel of weight 3, scale record (bias 1, scale 2^30, shift 30) in the
+    constants region, 1x2x1 OFM at scratch offset 4 -/
+def exFm (base : Nat) : FM := { region := 1, base := [base, 0, 0, 0], height0 := 1, height1 := 1, width0 := 2, strideX := 1, strideY := 2, strideC := 1, height := 1, width := 2, depth := 1, elemBytes := 1, signed := true, nhcwb16 := false, zeroPoint := 0 }
+
+def exBlock : BlockOp := { kind := .conv, subOp := 0, ifm := (exFm 0), ifm2 := none, ifm2Scalar := none, ifm2Broadcast := 0, ofm := (exFm 4), kernelW := 1, kernelH := 1, strideX := 1, strideY := 1, dilationX := 1, dilationY := 1, partKernelFirst := false, padTop := 0, padLeft := 0, padBottom := 0, padRight := 0, upscale := 0, weights := [], scales := [⟨0, 0, 10⟩], activation := 0, actMin := -128, actMax := 127, blkW := 1, blkH := 1, blkD := 1, ibEnd := 0, abStart := 0, ib2Start := none, accFormat := 0, blockdep := 0, ofmPrecision := 0, ifmPrecision := 0, ofmScale := none, opaScale := none, opbScale := none }
+
+def exMem : Mem := { regions := #[ByteArray.mk #[1, 0, 0, 0, 0, 0, 0, 0, 64, 30], ByteArray.mk #[5, 250, 0, 0, 0, 0, 0, 0], ByteArray.empty, ByteArray.empty] }
+def exW : Weights := { oc := 1, kh := 1, kw := 1, ic := 1, vals := #[3] }
+
+
 end VelaVerif.Lemmas.Exec
